@@ -3,6 +3,7 @@ import Drv.Stat
 import Drv.Walk
 import Drv.Sync
 import Drv.Proto
+import Drv.Meta
 open Lean Drv
 
 /-- which repairs (`fix:` commits) the model follows; the driver always runs the repaired model,
@@ -17,6 +18,8 @@ def handle (j : Json) : Except String Json := do
   | "walk" => hWalk j
   | "sync" => hSync j
   | "fault" => hFault j
+  | "metaonly" => hMetaOnly j
+  | "metasync" => hMetaSync j
   | "sendproto" => hSendProto j
   | "recvproto" => hRecvProto j
   | "hostile" => hHostile j
